@@ -927,7 +927,7 @@ def gen_module(rng, profile=None):
         if rest and rng.random() < 0.6:
             a1 = rng.choice(rest)
             d = random_default(a1.tk, rng, allow_none=False)
-            d[0] = "lit"
+            d[0] = rng.choice(["lit", "lit", "attr"])  # `x = 5` or `x = Attr(default=5)`, in both cases without a new annotation
             over = AttrDecl(tk=a1.tk, default=d, annotated=False)
             if profile.get("preparers", True) and rng.random() < 0.5:
                 # ... and overrides its preparer / item preparer (a method like any other) along with the default
